@@ -13,8 +13,9 @@ import AtreeProofs.ArrayInv
   slab with undefined `next`, plus the root's extra-data section.  `SlabOK` (the hypotheses of these
   three kinds, used by the E2E proofs) is `False` for the slab kinds added later (`adata`, `mdata`,
   `mindex`, `storableG`); the general statements `enc_len` / `decoded_size_eq` are phrased with
-  `SlabOKG` (Codec/SlabAll.lean), which per kind is exactly the hypothesis of the kind-specific
-  theorem, and hold for all SEVEN kinds (`enc_len_flat` / `decoded_size_eq_flat` are the former,
+  `SlabOKG` (Codec/SlabAll.lean), which per kind is the hypothesis of the kind-specific
+  theorem (array / map data slabs with general elements: with the exact nesting clause
+  `Slab.vdepth ≤ maxNestedLevels`), and hold for all SEVEN kinds (`enc_len_flat` / `decoded_size_eq_flat` are the former,
   three-kind statements; `SlabOK s → SlabOKG s`).
 
   The byte-level model now also covers map data / index / collision-group slabs, inlined arrays and
